@@ -222,6 +222,33 @@ def check_stats(case):
         raise Violation('LARGE(%r, %d) -> %r, expected %r' % (items, k, r['error'] or r['result'], float(want)), r['error'] or enc(r['result']), float(want))
 
 
+# ---------------------------------------------------------------- integer lists: the order-free integer-valued statistics are exact
+
+@st.composite
+def int_case(draw):
+    big = st.one_of(st.integers(2 ** 52, 2 ** 64), st.integers(-2 ** 64, -2 ** 52), st.sampled_from([2 ** 53 + 1, 2 ** 52 + 1, -(2 ** 53) - 1, 10 ** 17 + 1, 3 ** 40]))
+    items = draw(st.lists(st.one_of(big, big, st.integers(-9, 9)), min_size=1, max_size=8))
+    perm = draw(st.permutations(items))
+    return {'items': items, 'args': regroup(draw, items), 'perm_args': regroup(draw, list(perm)), 'how': draw(st.lists(st.sampled_from(['var', 'lit']), min_size=1, max_size=3))}
+
+
+def check_int_exact(case):
+    items = case['items']
+    kw1, kw2 = {}, {}
+    A1 = ','.join(bind(case['args'], case['how'], kw1))
+    A2 = ','.join(bind(case['perm_args'], case['how'][::-1], kw2))
+    e1, e2 = Env(**kw1), Env(**kw2)
+    prod = 1
+    for x in items:
+        prod *= x
+    for name, want in (('SUM', sum(items)), ('MIN', min(items)), ('MAX', max(items)), ('PRODUCT', prod), ('COUNT', len(items))):
+        for env, A, args in ((e1, A1, case['args']), (e2, A2, case['perm_args'])):
+            r = env.parse('%s(%s)' % (name, A))
+            g = r['result']
+            if r['error'] is not None or isinstance(g, bool) or not isinstance(g, (int, float)) or g != want or (isinstance(g, float) and int(g) != want):
+                raise Violation('%s over the integers %r -> %r, exactly %d by definition' % (name, args, r['error'] or g, want), r['error'] or enc(g), want)
+
+
 def stats_classes(c):
     items = c['items']
     out = []
@@ -493,6 +520,9 @@ LAWS = [
         rule='list of 1-40 numbers, a partition into arguments (scalars, flat arrays, nested arrays; variables / literals / ranges) and a permuted second partition: '
              '19 statistics equal their exact definitions on both, MODE returns a most frequent item, LARGE(array,k) is the k-th largest of the flattened array; '
              'non-trivial = length >= 3 with a negative, fractional or duplicate item'),
+    Law('integer_exactness', check_int_exact, strategy=int_case(), quick=700, thorough=40000, shards=(4, 16),
+        nontrivial=lambda c: len(c['items']) >= 2, classes=lambda c: ('sum-needs-more-than-53-bits',) if abs(sum(c['items'])) >= 2 ** 53 else (), required=('sum-needs-more-than-53-bits',),
+        rule='1-8 integers, most of magnitude 2^52..2^64, regrouped and permuted between arguments and nested arrays, as variables or literals: SUM, PRODUCT, MIN, MAX and COUNT equal the exact integer the definition gives (a result rounded to a double is not equal to it)'),
     Law('slope', check_slope, strategy=slope_case(), quick=1000, thorough=40000, shards=(4, 16),
         nontrivial=lambda c: len(c['xs']) >= 3,
         rule='2-12 (x, y) pairs, SLOPE(y1..yn, x1..xn) equals the least-squares slope and is unchanged when the pairs are permuted consistently'),
@@ -506,6 +536,6 @@ LAWS = [
         rule='1-2 error values of any of the 8 codes among integer items, regrouped: SUM, PRODUCT, AVERAGE, MIN, MAX, MEDIAN report the first error in flattening order'),
 ]
 
-LEVEL_TEXT = 'Hypothesis exploration: 19 statistics + LARGE + SLOPE against exact Fraction definitions, with permutation and regrouping (nested arrays, literals, variables, ranges) as metamorphic relations; criteria functions against a reference criteria compiler over generated ranges with near-miss cells.'
+LEVEL_TEXT = 'Hypothesis exploration: 19 statistics + LARGE + SLOPE against exact Fraction definitions, with permutation and regrouping (nested arrays, literals, variables, ranges) as metamorphic relations; exact comparison of the integer-valued statistics on integers of 2^52..2^64; criteria functions against a reference criteria compiler over generated ranges with near-miss cells.'
 LEVEL_NOTE = 'Trusted: the Fraction definitions and the reference criteria compiler in hx/checks/c11.py. Case sensitivity of text criteria and the three-argument SUMIF are not decided by the statement/code documentation and are not generated.'
 TECHNIQUE = 'Hypothesis differential testing against exact rational definitions + metamorphic permutation/regrouping + reference criteria model'
